@@ -17,7 +17,7 @@ import (
 
 // C20 — an envelope object reflects its last successful signing or its parsed bytes. (Engine E3: histories.)
 
-var c20Ops = []string{"sign-A", "sign-B", "sign-fail-before-signer", "sign-fail-in-signer", "sign-fail-at-timestamping", "sign-fail-declared-key-spec-other-than-leaf", "sign-fail-after-signer", "verify", "content"}
+var c20Ops = []string{"sign-A", "sign-B", "sign-fail-before-signer", "sign-fail-in-signer", "sign-fail-at-timestamping", "sign-fail-declared-key-spec-other-than-leaf", "sign-fail-after-signer", "sign-signature-by-another-key", "verify", "content"}
 
 // failingTimestamper is a tspclient.Timestamper whose authority is down: the inner envelope has already signed when it is asked.
 type failingTimestamper struct{}
@@ -133,8 +133,16 @@ func c20Request(which string, st c20Start) *signature.SignRequest {
 		// valid for the inner envelope; the wrapper rejects the chain at this signing time after the inner envelope has signed
 		req.SigningTime = chain[0].X.NotBefore.Add(-48 * time.Hour)
 	}
+	if which == "wrong-key" {
+		req.Payload.Content = []byte(`{"request":"wrong-key"}`)
+	}
 	if st.remote {
 		rs := envenc.NewRemoteSigner(pki.K(key), certs)
+		if which == "wrong-key" {
+			// an external signer whose signature value was made with another key of the same kind than its leaf's: the library may
+			// refuse (then nothing of the request may show) or produce an envelope that does not verify (then the object is that envelope)
+			rs = envenc.NewRemoteSigner(pki.K("p256-f"), certs)
+		}
 		if which == "fail-in" {
 			rs.SignErr = errors.New("hsm unavailable")
 		}
@@ -144,8 +152,8 @@ func c20Request(which string, st c20Start) *signature.SignRequest {
 		}
 		req.Signer = rs
 	} else {
-		if which == "fail-spec" {
-			which = "fail-in" // a local signer cannot declare another spec than its leaf's
+		if which == "fail-spec" || which == "wrong-key" {
+			which = "fail-in" // a local signer cannot declare another spec than its leaf's, nor sign with another key
 		}
 		ls, err := signature.NewLocalSigner(certs, pki.K(key).Priv)
 		if err != nil {
@@ -239,6 +247,17 @@ func c20Body(c *mc.Ctx, st c20Start, depth int) {
 				c.Fail(sig("tampered envelope changed behaviour"), "history %v: %s", hist, o1.key())
 				return false
 			}
+		case "signed-unverifiable":
+			// Sign returned bytes whose signature does not verify (external signer's fault): the object must be exactly those bytes
+			fc, perr, cerr, _ := parseContent(st.media, lastSigned)
+			if perr != nil || cerr != nil {
+				c.Fail(sig("bytes returned by Sign do not parse"), "history %v: %v %v", hist, perr, cerr)
+				return false
+			}
+			if o1.verifyOK || !o1.contentOK || sameContent(o1.c, fc) != "" {
+				c.Fail(sig("object differs from the bytes its last Sign returned"), "history %v: %s; returned bytes carry %q", hist, o1.key(), fc.Payload.Content)
+				return false
+			}
 		default: // signed-X
 			fresh, perr, verr, _ := parseVerify(st.media, lastSigned)
 			if perr != nil || verr != nil {
@@ -271,7 +290,7 @@ func c20Body(c *mc.Ctx, st c20Start, depth int) {
 		case "verify", "content":
 			// observation only (check() performs both twice)
 		default:
-			which := map[string]string{"sign-A": "A", "sign-B": "B", "sign-fail-before-signer": "fail-before", "sign-fail-in-signer": "fail-in", "sign-fail-at-timestamping": "fail-ts", "sign-fail-declared-key-spec-other-than-leaf": "fail-spec", "sign-fail-after-signer": "fail-after"}[op]
+			which := map[string]string{"sign-A": "A", "sign-B": "B", "sign-fail-before-signer": "fail-before", "sign-fail-in-signer": "fail-in", "sign-fail-at-timestamping": "fail-ts", "sign-fail-declared-key-spec-other-than-leaf": "fail-spec", "sign-fail-after-signer": "fail-after", "sign-signature-by-another-key": "wrong-key"}[op]
 			req := c20Request(which, st)
 			raw, err, pan := func() (raw []byte, err error, pan any) {
 				defer func() {
@@ -294,6 +313,14 @@ func c20Body(c *mc.Ctx, st c20Start, depth int) {
 					return
 				}
 				model = "signed-" + which
+				lastSigned = raw
+			case which == "wrong-key" && st.remote && err == nil:
+				// the library does not check an external signer's signature value: the returned (unverifiable) bytes are the object's state
+				if _, _, verr, _ := parseVerify(st.media, raw); verr == nil {
+					c.Fail(fmt.Sprintf("C20 %s signature by another key verifies", mediaShort(st.media)), "history %v", hist)
+					return
+				}
+				model = "signed-unverifiable"
 				lastSigned = raw
 			default:
 				if err == nil {
@@ -328,9 +355,9 @@ func c20Body(c *mc.Ctx, st c20Start, depth int) {
 func init() {
 	register(&mc.Check{
 		ID: "C20", Title: "An envelope object reflects its last successful signing or its parsed bytes", DesignRef: "DESIGN.md §4 C20",
-		Rule: "Engine E3: every history up to length 4 (quick) / 6 (thorough) over {sign A, sign B, sign failing before the signer is invoked, failing inside the inner envelope before signing, failing at timestamping (after the signer ran), failing after the inner envelope (chain invalid at the signing time), verify, content} on one envelope object, " +
+		Rule: "Engine E3: every history up to length 4 (quick) / 6 (thorough) over {sign A, sign B, sign failing before the signer is invoked, failing inside the inner envelope before signing, failing at timestamping (after the signer ran), failing after the inner envelope (chain invalid at the signing time), an external signer whose signature value was made with another key, verify, content} on one envelope object, " +
 			"from a new, a parsed valid and a parsed tampered envelope, both formats, local and remote signer; each history is replayed on a fresh object (no state merging) and after every operation Verify and Content are called twice and compared with a five-state reference machine " +
-			"(empty / parsed-valid / parsed-tampered / signed-A / signed-B): purity, no-signature error when empty, content of the last successful signing equal to a fresh parse of the returned bytes, and a failed signing never observable.",
+			"(empty / parsed-valid / parsed-tampered / signed-A / signed-B, plus signed-unverifiable when the library returns bytes for the wrong-key signer): purity, no-signature error when empty, content of the last successful signing equal to a fresh parse of the returned bytes, and a failed signing never observable.",
 		Assumptions: []string{"after a failed signing the model follows whichever of the two allowed observations (previous state / no signature) the object shows"},
 		Init:        func(mc.Tier) (int, error) { envFix.init(); return len(envFix.chains), nil },
 		Scenarios:   c20Scenarios,
